@@ -5,17 +5,98 @@ CFG = {
     "lean_theorems": "LeptosModel.Theorems.C07",
     "lean_exe": "lm_c07",
     "theorems": [
+        # in-order streaming: all programs without ErrorBoundary sub-builders, all schedules
+        "Leptos.Stream.C07_in_order",
+        "Leptos.Stream.C07_in_order_total",
+        "Leptos.Stream.C07_in_order_prefix",
+        "Leptos.Stream.C07_in_order_views",
+        # all programs, both modes
+        "Leptos.Stream.C07_terminates",
+        "Leptos.Stream.C07_no_dup_no_drop",
+        "Leptos.Stream.C07_fallback_until_ready",
+        # views render to programs in the classes the stream theorems quantify over
+        "Leptos.Stream.C07_views_wellformed",
+        "Leptos.Stream.C07_marker_ids",
+        # refutations / witnesses (kernel-evaluated)
+        "Leptos.Stream.C07_in_order_full_false",
+        "Leptos.Stream.C07_eb_inorder_witness",
+        "Leptos.Stream.C07_eb_ooo_witness",
+        "Leptos.Stream.C07_nested_suspend_witness",
+        "Leptos.Stream.C07_none_inline_witness",
+        "Leptos.Stream.C07_api_misuse_witness",
+        # the lemmas the theorems rest on
+        "Leptos.Stream.pollStep_inOrd",
+        "Leptos.Stream.pollStep_mu",
+        "Leptos.Stream.pollNext_not_stuck",
+        "Leptos.Stream.pollNext_progress",
+        "Leptos.Stream.drain_terminates",
+        "Leptos.Stream.exec_bdoc",
+        "Leptos.Stream.compile_inOrd",
+        "Leptos.Stream.compile_oooWf",
+        "Leptos.Stream.OooWf_of_bool",
+        "Leptos.Stream.exec_ids",
     ],
     "harness_pkg": "hx-c07",
     "harness_bin": "c07",
-    "n": {"quick": 1500, "thorough": 40000},
+    "n": {"quick": 8000, "thorough": 200000},
     "exhaustive": {"quick": True, "thorough": True},
     "trivial_tags": ["plain"],
-    "rule": "",
-    "trusted": [],
-    "modelled": [],
-    "assumptions": [],
-    "manifest": {},
+    "rule": "two levels, one op grammar. (A) builder level: builder programs (push_sync, push_async, push_fallback, "
+            "push_async_out_of_order(_with_nonce) with Some/None views, next_id, new(clone_id)+append, finish, take_chunks) run "
+            "against the real StreamBuilder through its public API, futures = oneshot receivers, the real Stream polled by hand "
+            "with a no-op waker; (B) view level: view trees as data (elements, text, tuples, Vec, Suspend::new(async{rx.await; view}), "
+            "<Suspense>/<Transition> with fallback, <Await>, <ErrorBoundary>; nesting <= 3, <= 6 futures, some futures completed "
+            "before rendering) built with the real leptos components under an Owner with an SsrSharedContext and rendered with "
+            "to_html_stream_in_order()/to_html_stream_out_of_order(); executor = hx_common::sched (run ops choose the task order, "
+            "the executor is drained before every stream poll). Exhaustive small scope: 5 view shapes and 3 builder shapes with "
+            "2-4 futures x both modes x ALL completion permutations x ALL poll interleavings with 0..2 polls between completions "
+            "(0..1 for 4 futures; 0..3 / 0..2 in the thorough tier); then seeded random views / view-shaped programs / arbitrary "
+            "API programs (chunk comparison only) with random grouped schedules. Observable: every poll's result (exact chunk "
+            "bytes / pending / done / panic) and the final document (concatenation, or the Rust twin of applyScripts for "
+            "out-of-order). Implementation-side oracle, independent of the model: final document == synchronous to_html() of the "
+            "same view with every asynchronous part replaced by its resolved content; stream terminated; per poll: no token "
+            "twice, no content token displayed before all futures on its path completed, fallback displayed while its boundary "
+            "is visible and not ready, no empty chunk. A case is trivial (`plain`) when it contains no future.",
+    "trusted": [
+        "futures::channel::oneshot, futures::future::Shared, futures::select! (modelled: a future is ready iff all its base futures completed)",
+        "reactive_graph effects/owners, leptos_server OnceResource, any_spawner (modelled only through `tick`: a Suspense boundary / "
+        "resource future needs one drained executor turn after its creation)",
+        "tachys element/text/tuple/Vec HTML printing (the model takes the pushed strings as given: `<tag>`, text, `</tag>`, `<!>`)",
+        "the browser: the inline script is modelled on strings (last matching marker comments, first template with the id, "
+        "range = substring, inert <template>/<script> elements dropped); Lean applyScripts and its Rust twin written independently",
+    ],
+    "modelled": ["StreamBuilder::{new, push_sync, push_async, take_chunks, append, finish, push_fallback, next_id, clone_id, "
+                 "write_chunk_marker, push_async_out_of_order(_with_nonce)}, OooChunk::{push_start, push_end_with_nonce}, "
+                 "impl Stream::poll_next (every branch)",
+                 "Suspend::to_html_async_with_buf (now_or_never, SuspenseContext check, next_id, fallback `()`), "
+                 "SuspenseBoundary::to_html_async_with_buf (Suspense, Transition, Await), ErrorBoundaryView::to_html_async_with_buf, "
+                 "RenderHtml::to_html_stream_in_order/out_of_order"],
+    "assumptions": [
+        "pushed strings are ASCII and contain no marker/template/script syntax of their own (tachys escapes `<` in text)",
+        "the executor is drained between stream polls on the view level (stream polls while tasks are still runnable are not explored)",
+        "u16 overflow of next_id (65535 boundaries in one builder) is not modelled; nonce feature, islands, mark_branches, extra_attrs, "
+        "LocalResource are outside the view grammar (replace = false is covered on the builder level)",
+        "out-of-order document equality is NOT proved (C07_out_of_order_stmt, C07_fallback_until_ready_stmt are OPEN): it rests on "
+        "the correspondence run and the kernel-evaluated instances",
+    ],
+    "manifest": {
+        "category": "proof",
+        "text": "Lean 4 theorems over all builder programs (chunk trees with futures, unbounded depth) and all completion schedules "
+                "(List (List FId): any permutation, grouping and interleaving with polls): the in-order stream is always a prefix of, "
+                "and at its end equal to, the fully resolved document, never panics (C07_in_order, _total, _prefix, _views); every "
+                "stream in either mode ends within a computed number of polls once all futures completed and poll_next's recursion "
+                "is bounded by a computed measure (C07_terminates); no empty chunk (C07_no_dup_no_drop); a not-ready future leaves "
+                "the pushed text untouched (C07_fallback_until_ready, step level); views outside three finding classes compile to "
+                "programs in the proved class (C07_views_wellformed). Out-of-order document equality is stated (C07_out_of_order_stmt) "
+                "but OPEN. Four defects found and reproduced on the real code (ErrorBoundary in-order mis-ordering and out-of-order "
+                "duplicate marker ids, nested Suspend under Suspense dropped, None-view in-place path deletes the fallback) = known "
+                "findings with kernel-checked witnesses; the reversed splice (F-C07-1) is shown to be API-misuse only. Tied to the "
+                "code by a differential run of the real StreamBuilder/Suspense/ErrorBoundary against the compiled model at builder "
+                "and view level, exhaustive over completion orders x poll interleavings for small shapes.",
+        "design_ref": "DESIGN.md §7 C07",
+        "note": "partial: out-of-order equality not proved (differentially validated only); model hand-written",
+        "technique": "Lean 4 proof (step invariants + termination measure over all schedules) + refutation witnesses + differential correspondence",
+    },
 }
 
 
